@@ -463,3 +463,8 @@ func stripDigits(s string) string {
 	}
 	return b.String()
 }
+
+// RequiredProbes: a batch in which one of these never fired explored nothing of that kind (exit 2, not a pass).
+func (c02) RequiredProbes() []string {
+	return []string{"cut-inside-package", "read-plan:one", "read-plan:header", "enumerated:single-cut", "fault:empty-packet"}
+}
